@@ -59,6 +59,20 @@ pub struct ConnMon {
     pub sent_hi: BTreeMap<u64, u64>,
     pub sent_total: u64,
     pub side_is_client: bool,
+    /// C08 bookkeeping
+    pub last_rx_ns: u64,
+    pub last_tx_ns: u64,
+    pub close_pto_ns: u64,
+    pub awaiting_close_tx: bool,
+    pub closer_had_early_keys: bool,
+    pub lost_reason: Option<String>,
+    pub lost_ns: Option<u64>,
+    pub timed_out: bool,
+    pub pto_at_last_event_ns: u64,
+    pub max_pto_ns: u64,
+    pub authed_seen: u64,
+    /// close() could not be announced because the (server) closer was amplification-limited
+    pub close_amp_blocked: bool,
 }
 
 pub struct Mon {
@@ -84,6 +98,9 @@ pub struct Mon {
     /// DATAGRAM seqs (None for anonymous short ones) in arrival order per receiving connection
     pub dgram_arrivals: BTreeMap<(usize, usize), Vec<Option<u32>>>,
     pub last_reset_ns: BTreeMap<usize, u64>,
+    /// how many connection objects an endpoint created for a pair id (duplicated Initials can
+    /// create zombies)
+    pub pair_creations: BTreeMap<(usize, u64), u32>,
 }
 
 /// Packets of a delivered datagram that are certainly genuine: those lying entirely inside the
@@ -161,6 +178,7 @@ impl Mon {
             rebinds: 0,
             dgram_arrivals: BTreeMap::new(),
             last_reset_ns: BTreeMap::new(),
+            pair_creations: BTreeMap::new(),
         }
     }
 
@@ -201,7 +219,21 @@ impl Mon {
             cm.inst_count.insert(remote, 1);
         }
         self.conns.insert((ei, ch), cm);
+        *self.pair_creations.entry((ei, pair)).or_insert(0) += 1;
         self.cnt.inc("conn.created");
+    }
+
+    /// Baseline for the authenticated-packet counter right after a connection object exists
+    /// (a server connection has already processed its first packet inside `accept`).
+    pub fn note_created(&mut self, ei: usize, ch: usize, conn: &Connection, now: u64) {
+        if let Some(cm) = self.conns.get_mut(&(ei, ch)) {
+            let p = conn.verif_probe();
+            cm.authed_seen = p.authed_packets;
+            if p.authed_packets > 0 {
+                cm.last_rx_ns = now;
+            }
+            cm.max_pto_ns = p.pto_data.as_nanos() as u64;
+        }
     }
 
     pub fn on_validated(&mut self, ei: usize, ch: usize, remote: SocketAddr) {
@@ -246,6 +278,16 @@ impl Mon {
         // C07: address validation events observable from the wire
         let lane = self.lane;
         let Some(cm) = self.conns.get_mut(&(ei, ch)) else { return };
+        {
+            // "received" for the idle timer means authenticated and processed: use the
+            // connection's own authenticated-packet counter to tell
+            let pr = conn.c.verif_probe();
+            if pr.authed_packets > cm.authed_seen {
+                cm.authed_seen = pr.authed_packets;
+                cm.last_rx_ns = d.at.max(cm.last_rx_ns);
+            }
+            cm.max_pto_ns = cm.max_pto_ns.max(pr.pto_data.as_nanos() as u64);
+        }
         if lane == Lane::Null && cm.led_on {
             {
                 let pk = intact_packets(d, conn.cid_len);
@@ -376,16 +418,20 @@ impl Mon {
                 }
             }
         }
-        if let Event::ConnectionLost { .. } = ev {
+        if let Event::ConnectionLost { reason } = ev {
             let mut msg = None;
             if let Some(cm) = self.conns.get_mut(&(ei, ch)) {
                 cm.lost_events += 1;
+                cm.lost_reason = Some(format!("{reason:?}"));
+                cm.lost_ns = Some(now);
+                cm.timed_out = matches!(reason, proto::ConnectionError::TimedOut);
+                cm.pto_at_last_event_ns = _conn.c.verif_probe().pto_data.as_nanos() as u64;
                 cm.closed_seen_ns.get_or_insert(now);
                 if cm.lost_events > 1 {
                     msg = Some(format!("connection {ei}/{ch}: ConnectionLost emitted {} times", cm.lost_events));
                 }
                 if cm.local_close.is_some() {
-                    msg = Some(format!("connection {ei}/{ch}: ConnectionLost emitted after a local close()"));
+                    msg = Some(format!("connection {ei}/{ch}: ConnectionLost emitted after a local close(): {reason:?}"));
                 }
             }
             if let Some(m) = msg {
@@ -407,8 +453,19 @@ impl Mon {
         if !conn.c.is_drained() {
             self.violate("C08", format!("connection {ei}/{ch}: Drained endpoint event while is_drained() is false"));
         }
+        let mut msg = None;
         if let Some(cm) = self.conns.get_mut(&(ei, ch)) {
             cm.drained_ns = Some(now);
+            if let Some((at, _, _)) = cm.local_close {
+                self.cnt.inc("c08.drain_deadline_checks");
+                // 3 x PTO after the close, plus the driver's configured timer lateness
+                if now > at + 3 * cm.close_pto_ns + 5_000_000 && cm.close_pto_ns > 0 {
+                    msg = Some(format!("conn {ei}/{ch}: drained {} ns after close(), 3 x PTO was {} ns", now - at, 3 * cm.close_pto_ns));
+                }
+            }
+        }
+        if let Some(m) = msg {
+            self.violate("C08", m);
         }
     }
 
@@ -477,7 +534,64 @@ impl Mon {
         }
     }
 
-    pub fn post_transmit_none(&mut self, _ei: usize, _ch: usize, _conn: &Conn, _pre: &Pre, _now: u64, _led: &mut Ledger) {}
+    pub fn post_transmit_none(&mut self, ei: usize, ch: usize, conn: &Conn, pre: &Pre, _now: u64, _led: &mut Ledger) {
+        if let Some(cm) = self.conns.get_mut(&(ei, ch)) {
+            if cm.awaiting_close_tx {
+                cm.awaiting_close_tx = false;
+                self.cnt.inc("c08.immediacy_checks");
+                // a server that has not validated the client yet may be unable to send at all
+                let amp_blocked = conn.side == Side::Server && !pre.probe.path_validated && pre.probe.path_total_sent + 1 > 3 * pre.probe.path_total_recvd;
+                if pre.probe.state != "Closed" {
+                    // something else (peer close, reset) ended the connection before we could poll
+                    self.cnt.inc("c08.close_overtaken");
+                } else if amp_blocked {
+                    cm.close_amp_blocked = true;
+                    self.cnt.inc("c08.close_amp_blocked");
+                } else {
+                    self.viol.push(Violation {
+                        prop: "C08",
+                        msg: format!(
+                            "conn {ei}/{ch}: close() was followed by no datagram at all (state {}, in flight {} / window {}, keys {:?})",
+                            pre.probe.state, pre.probe.in_flight_bytes, pre.probe.window, pre.probe.has_keys
+                        ),
+                    });
+                }
+            }
+        }
+    }
+
+    /// Called right after `Connection::close()` returned.
+    pub fn after_local_close(&mut self, ei: usize, ch: usize, conn: &Conn, now: u64) {
+        let p = conn.c.verif_probe();
+        let pto = p.pto_data.as_nanos() as u64;
+        self.cnt.inc("c08.local_closes");
+        let mut msgs = vec![];
+        if let Some(cm) = self.conns.get_mut(&(ei, ch)) {
+            cm.close_pto_ns = pto;
+            cm.awaiting_close_tx = p.state == "Closed";
+            cm.closer_had_early_keys = p.has_keys[0] || p.has_keys[1] || !p.has_keys[2];
+        }
+        if p.state == "Closed" {
+            match p.timers.iter().find(|t| t.0 == "Close") {
+                None => msgs.push(format!("conn {ei}/{ch}: no Close timer armed after close()")),
+                Some(&(_, at)) => {
+                    let dl = conn.c.poll_timeout();
+                    if dl != Some(at) && dl.map_or(true, |d| d > at) {
+                        msgs.push(format!("conn {ei}/{ch}: poll_timeout() after close() is later than the close deadline"));
+                    }
+                    let _ = now;
+                }
+            }
+            for (name, _) in &p.timers {
+                if !matches!(*name, "Close" | "KeyDiscard" | "PushNewCid") {
+                    msgs.push(format!("conn {ei}/{ch}: timer {name} still armed after close()"));
+                }
+            }
+        }
+        for m in msgs {
+            self.violate("C08", m);
+        }
+    }
 
     #[allow(clippy::too_many_arguments)]
     pub fn post_transmit(
@@ -534,6 +648,23 @@ impl Mon {
             }
         }
 
+        if let Some(cm) = self.conns.get_mut(&(ei, ch)) {
+            cm.last_tx_ns = now;
+            cm.max_pto_ns = cm.max_pto_ns.max(post.pto_data.as_nanos() as u64).max(pre.probe.pto_data.as_nanos() as u64);
+            if cm.awaiting_close_tx {
+                cm.awaiting_close_tx = false;
+                self.cnt.inc("c08.immediacy_checks");
+                if self.lane == Lane::Null {
+                    let has_close = decoded.iter().flatten().any(|d| d.iter().any(|p| p.has_close()));
+                    if !has_close {
+                        self.viol.push(Violation {
+                            prop: "C08",
+                            msg: format!("conn {ei}/{ch}: first transmit after close() carries no CONNECTION_CLOSE"),
+                        });
+                    }
+                }
+            }
+        }
         // ---------------- C16 on the wire ----------------
         if self.lane == Lane::Null {
             if let Some(limit) = post.peer_max_datagram_frame_size {
@@ -634,7 +765,12 @@ impl Mon {
             for i in 0..3 {
                 fell += pre.probe.loss_probes[i].saturating_sub(post.loss_probes[i]);
             }
+            // a client's first Handshake packet discards its Initial packets from flight in the
+            // middle of the call: bytes in flight at the time of each check are then unknowable
             let initial_discarded = pre.probe.has_keys[0] && !post.has_keys[0];
+            if initial_discarded {
+                self.cnt.inc("c12.gate_skipped_initial_discard");
+            }
             let mut f = pre.probe.in_flight_bytes;
             let mut exempt_probes = fell;
             let mut bad = vec![];
@@ -651,7 +787,7 @@ impl Mon {
                 if probe_pending {
                     self.cnt.inc("c12.gate_exempt_pending_probe");
                 }
-                if eliciting && !is_probe && !path_frames && !close && !probe_pending && !(initial_discarded && i > 0) {
+                if eliciting && !is_probe && !path_frames && !close && !probe_pending && !initial_discarded {
                     self.cnt.inc("c12.gate_checked");
                     // bytes in flight once this datagram is out: only packets that count
                     let _ = s;
@@ -664,8 +800,11 @@ impl Mon {
                             kinds.sort();
                             kinds.dedup();
                             let first_space = pk.first().map(|p| p.pkt.ty);
+                            let eliciting_only_handshake = pk.iter().filter(|p| p.ack_eliciting()).all(|p| matches!(p.pkt.ty, PType::Initial | PType::Handshake));
                             let how = if kinds == ["STREAMS_BLOCKED"] {
                                 "piggy-backed STREAMS_BLOCKED only"
+                            } else if pk.len() > 1 && eliciting_only_handshake {
+                                "handshake CRYPTO coalesced behind a non-eliciting packet"
                             } else if pk.len() > 1 && first_space != Some(PType::Short) {
                                 "coalesced behind an earlier-space packet"
                             } else {
